@@ -44,6 +44,29 @@ func main() {
 			os.Exit(2)
 		}
 		os.Exit(runExplain(f, *repo, *out))
+	case "anchors":
+		// regenerate the frozen anchor table from the tree the rules are confirmed on
+		fs := flag.NewFlagSet("anchors", flag.ExitOnError)
+		repo := fs.String("repo", "/repo", "repository root")
+		outFile := fs.String("o", "anchors.json", "output file")
+		fs.Parse(os.Args[2:])
+		prog, err := LoadProgram(*repo, nil)
+		if err != nil {
+			fmt.Println(err)
+			os.Exit(2)
+		}
+		theProgram = prog
+		for id, spec := range registry {
+			c := &Ctx{P: prog, Tier: "quick", Prop: id}
+			for _, rf := range spec.Rules {
+				runRule(c, rf)
+			}
+		}
+		if err := writeAnchors(*outFile); err != nil {
+			fmt.Println(err)
+			os.Exit(2)
+		}
+		fmt.Printf("%d anchors written to %s\n", len(anchorRecorded), *outFile)
 	case "list":
 		for id, s := range registry {
 			fmt.Println(id, len(s.Rules), len(s.ThoroughRules))
